@@ -11,7 +11,7 @@
     tlb/messages.go (MsgAddress), boc/cell.go, boc/bitString.go, ton/bits.go,
     ton/account.go, tl/basic_types.go. *)
 From Coq Require Import List NArith ZArith Bool.
-From Tongo Require Import Lib.Bits Lib.Res Model.BitString Model.JsonText.
+From Tongo Require Import Lib.Bits Lib.Res Model.BitString Model.BitStringD Model.JsonText.
 From Tongo Require Model.Address.
 Import ListNotations.
 Local Open Scope N_scope.
@@ -129,6 +129,16 @@ Definition from_fift_str (cs : str) : res bits :=
     end.
 
 Definition print_bitstring (l : bits) : str := quote (fift_chars l).
+
+(* BitString.MarshalJSON on the buffer state of C06 (capacity, length, buffer
+   with arbitrary content past the length): ToFiftHex as the Go code computes
+   it, with its Copy + Grow + completion tag ([Model.BitStringD.to_fift_bs]) *)
+Definition print_bitstring_bs (s : bs) : res str :=
+  do r <- to_fift_bs s;
+  let '(ds, u) := r in
+  Ok (quote (map hex_upper ds ++ (if u then [ch_under] else []))).
+(* a string of [l] written into a fresh buffer with [free] bits to spare *)
+Definition written_bs (l : bits) (free : nat) : bs := fst (write_bits l (new_bs (length l + free))).
 Definition parse_bitstring (p : str) : res bits := from_fift_str (trim_quotes p).
 
 (** * tlb.MsgAddress *)
